@@ -82,3 +82,9 @@ Proof.
   rewrite (lor_low_high _ b3 24) by (change (2^8) with 256; change (2^16) with 65536; change (2^24) with 16777216; lia).
   reflexivity.
 Qed.
+
+(* discharge a conjunction of range checks produced by the translator's `_ok` terms *)
+Ltac solve_ok :=
+  repeat (apply andb_true_intro; split);
+  first [ reflexivity | apply inr_true; lia | apply Z.leb_le; lia | apply Z.ltb_lt; lia
+        | apply negb_true_iff; apply Z.eqb_neq; lia ].
